@@ -10,7 +10,8 @@ import BsVerif.Gen.Dwregs
     fb <id> <n>                                 DW_AT_frame_base of subprogram <id> is DW_OP_reg<n>
     run <pc|exit> <27 register values> <sp of frames 1,2,..>   a stop: the thread's registers (RegisterMap field order)
                                                  and, per outer frame, the CFA of the frame below it
-    frame <k> <pc|noframe>                      select frame k whose pc is <pc>; answer: the function DIE
+    frame <k> <pc|noframe>                      select frame k whose pc is <pc> (outer frames: the return address; blocks and
+                                                 location lists are then looked up at pc-1); answer: the function DIE
     locals | lookup <name> | args | arg <name>  DIE ids
     read <name> [hint] | readarg <name> [hint]  where the value is read from (address / value); the hint (what the
                                                  implementation showed) is echoed ONLY where this model does not decide: expressions
@@ -109,6 +110,9 @@ def curFn (s : St) : Option Die :=
 
 def frameRegs (s : St) : FrameRegs := Scope.frameRegs s.regs0 s.sps s.frame
 
+/-- the pc of the scope filter and of the location-list selection in the selected frame -/
+def lookPc (s : St) : Nat := lookupPc s.frame s.pc
+
 def showRead (hint : Option String) : ReadResult → String
   | .addr a => s!"addr {hex a}"
   | .val v => s!"val {hex v}"
@@ -118,8 +122,8 @@ def showRead (hint : Option String) : ReadResult → String
 
 def readDie (s : St) (id : Nat) (hint : Option String) : String :=
   match s.locs.find? (·.1 == id), s.fn.bind fun f => (s.fbs.find? (·.1 == f)).map (·.2) with
-  | some (_, a), some fb => showRead hint (readVar (frameRegs s) fb a s.pc)
-  | some (_, a), none => showRead hint (readVar (frameRegs s) 0x7f a s.pc)
+  | some (_, a), some fb => showRead hint (readVar (frameRegs s) fb a (lookPc s))
+  | some (_, a), none => showRead hint (readVar (frameRegs s) 0x7f a (lookPc s))
   | none, _ => "nodata"
 
 def step (s : St) : List String → St × String
@@ -152,10 +156,10 @@ def step (s : St) : List String → St × String
       ({ s with frame := k, pc, fn := f }, match f with | some id => s!"fn {hex id}" | none => "nofn")
     | _, _ => (s, "bad-op")
   | ["locals"] => match curFn s with
-    | some f => (s, encList (fun (e : Entry) => hex e.2.info.id) (localVariables f s.pc))
+    | some f => (s, encList (fun (e : Entry) => hex e.2.info.id) (localVariables f (lookPc s)))
     | none => (s, "nofn")
   | ["lookup", name] => match curFn s, decName? name with
-    | some f, some (some n) => (s, match localVariable f s.pc n with | some e => hex e.2.info.id | none => "none")
+    | some f, some (some n) => (s, match localVariable f (lookPc s) n with | some e => hex e.2.info.id | none => "none")
     | none, some _ => (s, "nofn")
     | _, _ => (s, "bad-op")
   | ["args"] => match curFn s with
@@ -166,7 +170,7 @@ def step (s : St) : List String → St × String
     | none, some _ => (s, "nofn")
     | _, _ => (s, "bad-op")
   | "read" :: name :: rest => match curFn s, decName? name with
-    | some f, some (some n) => (s, match localVariable f s.pc n with
+    | some f, some (some n) => (s, match localVariable f (lookPc s) n with
         | some e => readDie s e.2.info.id rest.head?
         | none => "novar")
     | none, some _ => (s, "nofn")
